@@ -1,6 +1,9 @@
-"""C11 helper: compile coq/Gen_C11.v; obligations that lia cannot prove are taken out one by one
-(their statements are kept in a comment) until the file compiles; returns the failing ids."""
+"""C11 helper: compile coq/Gen_C11.v. One probe run of coqc tells which obligations lia proves; the ones it
+cannot prove are taken out (their statements are kept in a comment) and returned; the rest is compiled and the
+conjunction of the surviving obligations is appended as ONE statement (c11_all_obligations)."""
 import re, os, subprocess, json
+
+LEMMA = re.compile(r"^Lemma (ob_\S+) : (.*)\.\nProof\. (.*) Qed\.$", re.M)
 
 def add_aggregate(path):
     """append the conjunction of all surviving obligations and its proof (stated as ONE theorem in C11_Props.v)"""
@@ -15,14 +18,69 @@ def add_aggregate(path):
     txt += "\n(* conjunction of the %d obligations above that lia proves (added by lib/c11.py) *)\n" % len(lem)
     txt += "Definition c11_all_obligations : Prop :=\n  %s%sTrue.\n" % (stmts, " /\\\n  " if lem else "")
     txt += "Lemma c11_all_obligations_hold : c11_all_obligations.\nProof. exact %s. Qed.\n" % proof
+    txt += "Definition c11_proved_count : nat := %d%%nat.\n" % len(lem)
     open(path, "w").write(txt)
+
+def coqc(coqdir, path, timeout):
+    return subprocess.run(["timeout", str(timeout), "coqc", "-Q", coqdir, "V", path], stdout=subprocess.PIPE,
+                          stderr=subprocess.STDOUT, text=True, cwd=coqdir)
+
+def take_out(txt, names):
+    """replace the named lemmas by a comment that keeps their statement"""
+    def rep(m):
+        if m.group(1) not in names:
+            return m.group(0)
+        stmt = ("Lemma %s : %s. Proof. %s Qed." % (m.group(1), m.group(2), m.group(3))).replace("(*", "( *").replace("*)", "* )")
+        return "(* UNPROVED by lia, removed: " + stmt + " *)"
+    return LEMMA.sub(rep, txt)
+
+def probe(coqdir, txt, timeout):
+    """one coqc run over a scratch file in which every obligation is a Goal that reports whether its own proof
+    script closes it (30 s per obligation); returns the set of unproved names, or None when the probe could not run"""
+    head = txt[:LEMMA.search(txt).start()] if LEMMA.search(txt) else txt
+    out = [head]
+    names = []
+    for m in LEMMA.finditer(txt):
+        name, stmt, script = m.group(1), m.group(2), m.group(3).strip()
+        script = script.rstrip(".")
+        names.append(name)
+        out.append('Goal %s.\nProof. first [ assert_succeeds (solve [timeout 30 (%s)]); idtac "C11PROVED %s" | idtac "C11UNPROVED %s" ]. Abort.'
+                   % (stmt, script, name, name))
+    # the scratch file lives outside coq/ (every coq/*.v belongs to the project)
+    pdir = os.path.join(os.path.dirname(os.path.abspath(coqdir)), "run")
+    if not os.path.isdir(pdir):
+        pdir = coqdir
+    ppath = os.path.join(pdir, "c11_probe_%d.v" % os.getpid())
+    open(ppath, "w").write("\n".join(out) + "\n")
+    try:
+        p = coqc(coqdir, ppath, timeout)
+    finally:
+        stem = ppath[:-2]
+        for f in (stem + ".v", stem + ".vo", stem + ".vok", stem + ".vos", stem + ".glob",
+                  os.path.join(pdir, "." + os.path.basename(stem) + ".aux")):
+            try:
+                os.remove(f)
+            except OSError:
+                pass
+    if p.returncode != 0:
+        return None
+    proved = set(re.findall(r"C11PROVED (\S+)", p.stdout))
+    unproved = set(re.findall(r"C11UNPROVED (\S+)", p.stdout))
+    if proved | unproved != set(names):
+        return None
+    return unproved
 
 def prove_obligations(coqdir, timeout=600):
     path = os.path.join(coqdir, "Gen_C11.v")
+    txt = open(path).read()
+    if "c11_all_obligations" not in txt and LEMMA.search(txt):
+        bad = probe(coqdir, txt, timeout)
+        if bad:
+            open(path, "w").write(take_out(txt, bad))
     failing = []
-    for _ in range(200):
-        p = subprocess.run(["timeout", str(timeout), "coqc", "-Q", coqdir, "V", path], stdout=subprocess.PIPE,
-                           stderr=subprocess.STDOUT, text=True, cwd=coqdir)
+    # the file must now compile; should an obligation still fail (probe unavailable), take them out one by one
+    for _ in range(400):
+        p = coqc(coqdir, path, timeout)
         if p.returncode == 0:
             add_aggregate(path)
             # every obligation taken out so far (by this call or an earlier one on the same generated text)
